@@ -1488,6 +1488,11 @@ func runTokens(c *engine.Ctx) engine.Result {
 		},
 	}
 	if c.Replay != nil {
+		var pc tkPairCase
+		if err := json.Unmarshal(c.Replay, &pc); err == nil && pc.Backend != "" {
+			runTokensPair(c, pc)
+			return res
+		}
 		var tc tkCase
 		if err := json.Unmarshal(c.Replay, &tc); err != nil {
 			r.Broken("bad replay: " + err.Error())
@@ -1510,6 +1515,7 @@ func runTokens(c *engine.Ctx) engine.Result {
 	r.Sample(cases[len(cases)-1])
 	engine.ForEach(len(cases), engine.Workers(), func(i int) { runTKCase(c, cases[i]) })
 	runTokensStoreOnceAll(c)
+	runTokensPairs(c)
 
 	// observations about the stored ID
 	ids := r.Counter("tokens-searched")
@@ -1522,6 +1528,7 @@ func runTokens(c *engine.Ctx) engine.Result {
 
 	q := func(a, b int) int64 { return int64(c.Pick(a, b)) }
 	r.Require("histories", q(300, 5000))
+	r.Require("pair:histories:file", q(6, 30))
 	r.Require("histories:storage-wrapper", q(100, 1500))
 	r.Require("histories:no-storage-wrapper", q(50, 800))
 	r.Require("step:create", q(300, 5000))
